@@ -81,7 +81,7 @@ def main():
         "setup_cmd": "bin/setup",
         "hooks": {"guard": "verif", "enable": "go build -tags verif (harness module replaces the package by /repo)",
                   "baseline_off_cmd": "cd /repo && GOFLAGS=-mod=mod GOPROXY=off go test -json -vet=off -count=1 -timeout 25m ./...",
-                  "source_commits": ["69076a3"], "add_only": True},
+                  "source_commits": ["69076a3", "b12c98b"], "add_only": True},
         "engines": [
             {"name": "coq", "path": "/verif/coq", "serves_properties": sorted(CLAIMS), "kind_free_text": "Coq 8.16.1 development: generated tables/dispatch/constants/effects, Go-mirroring executable model, property theorems"},
             {"name": "harness", "path": "/verif/tools/harness", "serves_properties": sorted(CLAIMS), "kind_free_text": "Go correspondence harness (-tags verif) against the extracted OCaml model; direct property oracles; race and cost modes"},
